@@ -2,6 +2,8 @@ package htsim
 
 import (
 	"fmt"
+	"os"
+	"sort"
 	"strings"
 )
 
@@ -25,6 +27,7 @@ type pcmd struct {
 
 // proto describes one service for the dialogue engines (C04, C01, C03, C09).
 type proto struct {
+	Key     string // table key when it differs from Name (e.g. "memcached-udp")
 	Name    string // service type in the registry
 	Port    int
 	UDP     bool
@@ -223,6 +226,38 @@ var protoTable = map[string]*proto{
 }
 
 var protoNames = []string{"ftp", "redis", "memcached", "telnet", "http", "smtp"}
+
+// registerProto adds a protocol description (used by the protos_*.go files).
+func registerProto(p *proto) {
+	key := p.Name
+	if p.Key != "" {
+		key = p.Key
+	}
+	protoTable[key] = p
+	for _, n := range protoNames {
+		if n == key {
+			return
+		}
+	}
+	protoNames = append(protoNames, key)
+	sort.Strings(protoNames)
+}
+
+// activeProtos: all registered protocols, or the VERIF_PROTOS subset (comma separated keys).
+func activeProtos() []string {
+	if v := os.Getenv("VERIF_PROTOS"); v != "" {
+		var out []string
+		for _, n := range strings.Split(v, ",") {
+			if protoTable[n] != nil {
+				out = append(out, n)
+			}
+		}
+		if len(out) > 0 {
+			return out
+		}
+	}
+	return protoNames
+}
 
 // serviceConfig renders the toml for one service on one port.
 func serviceConfig(p *proto, svcName string) string {
